@@ -112,6 +112,17 @@ func (a *FuncAn) registryValueNonNil(s *State, v ssa.Value) bool {
 		if !ok || ex.Index != 0 {
 			return false
 		}
+		// a helper that only hands out the two results of one comma-ok lookup in a package-level map
+		if call, isCall := ex.Tuple.(*ssa.Call); isCall {
+			if callee := call.Call.StaticCallee(); callee != nil && lookupPassthrough(callee) {
+				for _, r := range *call.Referrers() {
+					if e2, ok := r.(*ssa.Extract); ok && e2.Index == 1 && s.truth[e2] {
+						return true
+					}
+				}
+			}
+			return false
+		}
 		lk, ok := ex.Tuple.(*ssa.Lookup)
 		if !ok || !lk.CommaOk || !rootsAtGlobal(lk.X) {
 			return false
@@ -158,4 +169,30 @@ func (a *FuncAn) registryValueNonNil(s *State, v ssa.Value) bool {
 		return false
 	}
 	return a.E.mapValuesNonNil(stored.Type(), fa.Field)
+}
+
+// lookupPassthrough: f has two results and every return hands out (value, ok) of one comma-ok lookup in a
+// package-level map of the module, unchanged.
+func lookupPassthrough(f *ssa.Function) bool {
+	if f.Blocks == nil || f.Signature.Results().Len() != 2 {
+		return false
+	}
+	n := 0
+	for _, b := range f.Blocks {
+		ret, ok := b.Instrs[len(b.Instrs)-1].(*ssa.Return)
+		if !ok {
+			continue
+		}
+		n++
+		e0, ok0 := ret.Results[0].(*ssa.Extract)
+		e1, ok1 := ret.Results[1].(*ssa.Extract)
+		if !ok0 || !ok1 || e0.Index != 0 || e1.Index != 1 || e0.Tuple != e1.Tuple {
+			return false
+		}
+		lk, ok := e0.Tuple.(*ssa.Lookup)
+		if !ok || !lk.CommaOk || !rootsAtGlobal(lk.X) {
+			return false
+		}
+	}
+	return n > 0
 }
